@@ -149,7 +149,10 @@ impl<'a> SpannedDiagnosticFormatter<'a> {
             } else {
                 // Otherwise set next span to start at the beginning of the next line.
                 out.push('\n');
-                span = Span::new(line_start_byte + source_line.len() + 1, span.end())
+                // `lines()` strips either "\n" or "\r\n".
+                let line_end = line_start_byte + source_line.len();
+                let nl_len = if self.src[line_end..].starts_with("\r\n") { 2 } else { 1 };
+                span = Span::new(line_end + nl_len, span.end())
             }
         }
 
